@@ -368,6 +368,9 @@ def run(ck):
     guards(ck, P)
     signed_offsets(ck, P)
     slide_order(ck, P)
+    from . import c12 as _c12, c15 as _c15
+    _c12.heuristics(ck, P, __import__("oracles.zlibng_ref", fromlist=["load"]).load(), only={"quick:pending-room"})
+    _c15.avoid_spurious_buferror(ck, P)
     lint(ck, P)
     ck.assumptions += ["rustc MIR, lint levels", "justified-abort table confirmed by reading", "host target x86_64; K1"]
 
